@@ -3,9 +3,10 @@
    syntax diagnostic -- is the lookup's answer at a character boundary inside the text (C04_stored_positions, for every text,
    well-formed or not, and any tables: an invariant of the parser's stack that needs no typing), that Position::new itself is
    sound, and that the lookup index of the end of a prefix is its character count.
+   Also proved: every diagnostic validation adds sits on a node's range (C04_validation_on_nodes).
    Not proved: start <= end, exactness of name ranges and nesting; those are checked on the implementation's output by
    text-based oracles and by the exact correspondence with the table-driven model. *)
-From AidlV Require Import Model.LrDriver Proofs.Totality Proofs.RangesOk.
+From AidlV Require Import Model.LrDriver Spec.Master Proofs.Totality Proofs.RangesOk Proofs.ArityOk Proofs.DiagSites.
 
 Theorem C04_position : forall cx off p,
   mk_pos cx off = Some p ->
@@ -30,6 +31,20 @@ Theorem C04_stored_positions : forall cx id fr, add_content cx id = Added fr ->
   Forall (diag_rok cx) (fr_diags fr) /\ (forall a, fr_ast fr = Some a -> aidl_rok cx a).
 Proof. exact add_content_ranges. Qed.
 Print Assumptions C04_stored_positions.
+
+(* a validation diagnostic sits on the range of the node it names: whatever validation adds to a stored tree's diagnostics
+   has its range -- and every related range -- among the ranges of the tree's nodes (`sites`: name ranges of imports,
+   declarations, types at any depth, methods, the item; transact-code, oneway-keyword and direction ranges; the full range of
+   a declaration).  Resolution and oneway propagation change no range, so these are also the returned tree's ranges. *)
+Theorem C04_validation_on_nodes : forall cx id fr a defined a' ds d,
+  add_content cx id = Added fr -> fr_ast fr = Some a ->
+  validate_file defined a (fr_diags fr) = Ok (a', ds) -> In d ds ->
+  In d (fr_diags fr) \/ dok (sites a) d.
+Proof.
+  intros cx id fr a defined a' ds d H E V Hd.
+  exact (validation_diag_sites defined a (fr_diags fr) a' ds d (add_content_wf cx id fr a H E) V Hd).
+Qed.
+Print Assumptions C04_validation_on_nodes.
 
 (* what pos_ok says, spelled out *)
 Theorem C04_pos_ok_meaning : forall cx p, pos_ok cx p ->
